@@ -1,5 +1,6 @@
 (* Association-list and string-prefix lemmas used by the C08 proofs. Stdlib only. *)
-From Verif Require Import Base.Prelude ACL.Model.
+From Verif Require Import Base.Prelude.
+From Verif Require Import ACL.Model.
 From Coq Require Import Permutation.
 
 Lemma bool_eq_iff (a b : bool) : (a = true <-> b = true) -> a = b.
